@@ -6,8 +6,8 @@ the signed word range therefore behaves differently from the same expression
 evaluated at run time (where it wraps) as soon as it feeds a non-ring
 operation *that is itself evaluated at compile time*: a division, modulo or
 comparison whose operands are all constant, the truth value of a constant
-(and / or / not / is bool, a constant condition, a constant argument of
-!truth_is_defeat), or a constant dynamic-array length.  An out-of-range
+(a constant operand of and / or / not / is bool, a constant condition, a
+constant argument of !truth_is_defeat), or a constant dynamic-array length.  An out-of-range
 constant that only meets run-time operands (x / 65536, x < 70000, a[65536],
 int g = 65536 + 1) ends up as an immediate or a data word, wraps there and is
 *not* part of the finding (the compiled code agrees with run-time semantics;
@@ -116,6 +116,18 @@ def _scan_expr(e, env, ws, hits, truth=False):
     if isinstance(e, Call) and e.name == '!truth_is_defeat':
         for x in e.args:
             _scan_expr(x, env, ws, hits, truth=True)
+        return
+    # a constant operand of a logical operator or of `is bool` is converted to its truth value at compile time even when
+    # the other operand is a run-time value (r and 65536)
+    if isinstance(e, Bin) and e.op in ('and', 'or'):
+        _scan_expr(e.l, env, ws, hits, truth=True)
+        _scan_expr(e.r, env, ws, hits, truth=True)
+        return
+    if (isinstance(e, Un) and e.op == 'not') or (isinstance(e, Is) and e.ty == BOOL):
+        _scan_expr(e.e, env, ws, hits, truth=True)
+        return
+    if isinstance(e, Paren) and truth:
+        _scan_expr(e.e, env, ws, hits, truth=True)
         return
     for f in e.fields:
         v = getattr(e, f)
